@@ -35,6 +35,15 @@ def gen(tier, rng):
             out.append(Case("kp_ml_verify", API_OF[cp], [sk + pk, best, s2, b"kp", 0], ["in_domain", "chain-verify", "keypair-wrapper"], aux=1))
         else:
             out.append(Case("kp_api_verify", API_OF[cp], [sk + pk, best, sig], ["in_domain", "chain-verify", "keypair-wrapper"], aux=1))
+    # committed rare shapes of genuine signatures (tools/mk_corpus.py): a hint-free polynomial, exactly omega hints. The crate signed
+    # them; it must also verify them
+    import json, os
+    cdir = os.path.join(os.path.dirname(os.path.dirname(os.path.dirname(os.path.abspath(__file__)))), "corpus")
+    for name, tag in (("c03_empty_hint_row.json", "hint-free-polynomial"), ("c03_exact_omega.json", "exactly-omega-hints")):
+        fp = os.path.join(cdir, name)
+        for e in (json.load(open(fp)) if os.path.exists(fp) else []):
+            out.append(Case("verify", e["set"], [bytes.fromhex(e["sig"]), bytes.fromhex(e["msg"]), bytes.fromhex(e["pk"])],
+                            ["in_domain", "chain-verify", tag, "corpus", "crate-only"], aux=1))
     return out
 
 
